@@ -96,8 +96,13 @@ def run_impl(sim, ops):
             obs.append({'err': type(e).__name__})
             if bad is None: bad = ('raises', 'step %d %r raised %s on a valid history' % (i, op, type(e).__name__))
             break
-        st = {k: F(ld.weight[k]) for k in ld.items}
-        T = F(ld.total_weight()); S = sum(st.values())
+        try:
+            st = {k: F(ld.weight[k]) for k in ld.items}
+            T = F(ld.total_weight()); S = sum(st.values())
+        except (OverflowError, ValueError, TypeError) as e:
+            obs.append({'err': 'non-finite'})
+            if bad is None: bad = ('non-finite', 'step %d %r: total_weight() = %r / stored weights %r are not finite numbers although all weights are finite and far from overflow' % (i, op, ld.total_weight(), dict(ld.weight)))
+            break
         obs.append({'w': st, 'T': T, 'hex': float(ld.total_weight()).hex() if isinstance(ld.total_weight(), float) else str(ld.total_weight())})
         if bad is not None: continue
         d = abs(T - S)
